@@ -136,9 +136,8 @@ func purgeWidthGadgets(ex expr.Expr) (expr.Expr, bool) {
 	case expr.MemLoad:
 		// Address keeps its width independently on width of MemLoad.
 		addr, changedAddr := purgeWidthGadgetsKeepWidth(e.Addr())
-		addr, prunedAddr := pruneUselessWidthGadgets(addr, e.Width())
 
-		if !(changedAddr || prunedAddr) {
+		if !changedAddr {
 			return ex, false
 		}
 		return expr.NewMemLoad(e.Key(), addr, e.Width()), true
